@@ -98,6 +98,18 @@ Proof. intros. split; [apply step_upsert_has|split; [apply step_remove_has|apply
 Print Assumptions C11_pool_membership.
 
 (* the contracts are satisfiable: a library (tagged Cantor-paired strings) meeting all of them with two distinct servers *)
+(* an encrypted-cookie codec built with a zero or negative lifetime ("never expires") mints and accepts exactly what the
+   codec with lifetime 0 does, for every key, clock, nonce, server, cookie string and pool: no expiry is appended and
+   none is looked for (a codec that appended one for a negative lifetime would never find its own cookies again) *)
+Theorem C11_nonpositive_ttl_means_no_expiry : forall L k ttl, ttl <= 0 ->
+  (forall now nonce u, get L now nonce (Aes k ttl) u = get L now nonce (Aes k 0) u) /\
+  (forall now v pool, find_url L now (Aes k ttl) v pool = find_url L now (Aes k 0) v pool).
+Proof.
+  intros L k ttl H. assert (E : (0 <? ttl) = false) by (apply Z.ltb_ge; exact H).
+  split; intros; cbn [get find_url]; unfold from_value; rewrite E; reflexivity.
+Qed.
+Print Assumptions C11_nonpositive_ttl_means_no_expiry.
+
 Theorem C11_contracts_consistent : exists L V, contracts L V /\ V 0 /\ V 1 /\ ukey L 0 <> ukey L 1.
 Proof. exact contracts_consistent. Qed.
 Print Assumptions C11_contracts_consistent.
